@@ -218,6 +218,8 @@ def judge(case):
             continue
         for d in diff_streams(ea, eb, subs):
             diffs.append(d + (fn,))
+        judge.digest = core.h64((getattr(judge, 'digest', 0), fn, [e[:2] for e in eb if e[0] != 'data'],
+                                 [e[1] for e in eb if e[0] == 'data' and any(d in e[1] for m, d in subs)]))
     return ('violation' if diffs else 'ok'), diffs, src
 
 
@@ -248,10 +250,11 @@ def classify(case, diffs):
 def run_block(block):
     rep = core.Report()
     for case in block:
+        judge.digest = 0
         v, diffs, src = judge(case)
         meta = any(c in p for pos, p in case['fills'] for c in '<>&"')
         sig = tuple(sorted(set((d[0], re.sub(r'\d+', 'N', str(d[2]))[:60]) for d in diffs)))
-        rep.case(key=repr(case), nontrivial=meta, outcome=sig)
+        rep.case(key=repr(case), nontrivial=meta, outcome=(sig, judge.digest))
         rep.count('cfg_' + case['config'])
         if v == 'ok':
             if meta and len(rep.samples) < 3:
